@@ -128,7 +128,7 @@ func run(t *testing.T, tape *simrt.Tape) *hx.Outcome {
 							w.commitSeq = s.Event("c%d commit w%d %s n=%d", c, w.id, key, w.n)
 							err := cw.Commit()
 							if err != nil && faultDen == 0 {
-								s.Fail("commit-error", "Commit(%s): %v", key, err)
+								s.Fail("commit-error", "Commit(%s): %s", key, strings.ReplaceAll(err.Error(), root, "$ROOT"))
 							}
 							out.Counters["commits"]++
 						}
